@@ -52,8 +52,13 @@ func main() {
 
 func run(col *core.Collector, prop, tier, variant string, seed uint64, shard, nshards int, replayDir, out string) {
 	switch prop {
-	case "C01", "C03", "C07", "C10", "C12":
+	case "C01", "C07", "C10", "C12":
 		seq.RunProperty(col, prop, tier, seed, shard, nshards, replayDir)
+	case "C03":
+		if variant == "plain" {
+			seq.RunProperty(col, prop, tier, seed, shard, nshards, replayDir)
+		}
+		conc.RunC03(col, tier, variant, seed, shard, nshards, replayDir, out)
 	case "C11":
 		if variant == "plain" {
 			seq.RunProperty(col, prop, tier, seed, shard, nshards, replayDir)
